@@ -3,6 +3,7 @@
 use crate::ev::Ctx;
 use serde_json::Value;
 
+pub mod c01;
 pub mod c02;
 pub mod c08;
 pub mod c09;
@@ -17,6 +18,7 @@ type RunFn = fn(&mut Ctx);
 type ReplayFn = fn(&mut Ctx, &Value);
 
 pub const TABLE: &[(&str, RunFn, ReplayFn)] = &[
+    ("C01", c01::run, c01::replay),
     ("C02", c02::run, c02::replay),
     ("C08", c08::run, c08::replay),
     ("C09", c09::run, c09::replay),
